@@ -29,6 +29,11 @@ def coverage(ctx, idx, ra, rb, rc):
     n_cmd = n_ret = 0
     for d, r in R.data_commands(idx):
         n_cmd += 1
+        seen_oc = set()
+        for kind_, line_, msg_, fk_, node_ in r.findings:
+            if kind_ == "out-container" and line_ not in seen_oc:
+                seen_oc.add(line_)
+                ctx.violate(ra, "%s.execute::out-target-is-masked@%s" % (d.key, K.src(node_)[:40]), d.module.rel, line_, msg_)
         for n, s, v in R.ret_sites(d, r):
             n_ret += 1
             con = R.ret_key(d, n)
